@@ -20,6 +20,7 @@ def _f(x):
 
 def _alto(case):
     g = {k: int(_f(v)) for k, v in case['geo'].items()}
+    F = case.get('F', 5)
     text = case['text']
     lmode = case['logits']
     pl = L.PageLayout(id='page 1.jpg', page_size=(g['page_h'], g['page_w']))
